@@ -34,7 +34,7 @@ RULE = (
     "{0, 0.5, 0.9, 0.99, 1} or (0,1), parameter scale 0.05..30 and the extras of each loss (alpha, min_priority, "
     "clip range, reward scales, horizon, loss weights, environment_terminates, normalize_targets). Twin critics "
     "are centred so that each is the minimum in some row; Huber deltas and clip bounds are placed at the median "
-    "/ quartiles of the data (times 1, 0.5, 2, 1e-3, 1e3). Non-trivial = batch mixes terminated and "
+    "/ quartiles of the data (times 1, 0.7, 1.5, 1e-3, 1e3). Non-trivial = batch mixes terminated and "
     "non-terminated rows, the bootstrap term is >= 1% of the target scale and, where the loss has a branch "
     "(double-Q selection, min of two critics, Huber, value clipping, post-terminal mask), both branches occur. "
     "Distinct = distinct canonical case."
@@ -565,7 +565,7 @@ def run_engine(S, case):
 ACTS = ["relu", "tanh", "elu"]
 RSCALES = [1.0, 1.0, 1.0, 1.0, 3.0, 3.0, 0.3, 0.3, 10.0, 0.0, 0.03, 30.0, 1000.0]
 PSCALES = [1.0, 1.0, 3.0, 0.3, 30.0, 0.05]
-FACTORS = [1.0] * 12 + [0.5] * 3 + [2.0] * 3 + [1e-3] + [1e3]  # Huber delta / clip range relative to the data
+FACTORS = [1.0] * 12 + [0.7] * 3 + [1.5] * 3 + [1e-3] + [1e3]  # Huber delta / clip range relative to the data
 
 
 def _choice(r, xs, p=None):
@@ -710,9 +710,9 @@ SUBCHECKS = []
 _BASE_RULE = "terminated and non-terminated rows mixed, bootstrap >= 1% of the target scale"
 
 
-def _add(name, builder, run, rule="", cost=1.0, quick=60):
+def _add(name, builder, run, rule="", cost=1.0, quick=60, floor=0.3):
     SUBCHECKS.append(SubCheck(name, _cases(builder), run, quick=quick, thorough=1500, shards=2, shrink=False,
-                              suppress_too_slow=True,
+                              suppress_too_slow=True, min_nontrivial_frac=floor,
                               simplify=_simplify, cost=cost, rule=_BASE_RULE + rule))
 
 
@@ -1114,7 +1114,8 @@ _MIN_RULE = ", each target critic is the minimum in some non-terminated row"
 _add("ddpg", cont_builder("ddpg"), _runner(ContSetup, "ddpg"))
 _add("td3", cont_builder("td3"), _runner(ContSetup, "td3"), _MIN_RULE)
 _add("td3_lap", cont_builder("td3_lap"), _runner(ContSetup, "td3_lap"),
-     _MIN_RULE + ", absolute TD errors on both sides of min_priority")
+     _MIN_RULE + ", absolute TD errors on both sides of min_priority",
+     floor=0.2)  # conjunction of four constructed features (observed 0.35-0.45)
 _add("sac", cont_builder("sac"), _runner(ContSetup, "sac"), _MIN_RULE, cost=1.5)
 
 
